@@ -38,6 +38,19 @@ def snapshot(loader, A) -> dict:
     return out
 
 
+def broken_tokens(loader) -> set:
+    ids, toks = set(), set()
+    for p, tree in sem_trees(loader):
+        for e in tree.root.iter():
+            if isinstance(e.tag, str):
+                for k, v in e.attrib.items():
+                    if k == "id":
+                        ids.add(v)
+                    elif k not in SKIP_ATTRS and "#" in v:
+                        toks.update(ref_tokens(v))
+    return toks - ids
+
+
 def find_container(obj):
     """(list, index) of the containment/role list of the parent that holds obj"""
     try:
@@ -78,7 +91,8 @@ def run(chk: lib.Check):
         plan_model = corpus.load(spec0)
         refcount = collections.Counter()
         all_sem = []
-        for p, tree in sem_trees(plan_model._loader):
+        sem_trees_plan = sem_trees(plan_model._loader)
+        for p, tree in sem_trees_plan:
             if p.parts[0] != "\0":
                 continue
             for e in tree.root.iter():
@@ -109,14 +123,52 @@ def run(chk: lib.Check):
                 if e is not None and e.get("id") and e.get("id") in byid:
                     plparents.append(e.get("id"))
         plparents = list(dict.fromkeys(plparents))
+        # subtrees of which ONE holder's relation (a list attribute, or link elements sharing parent, tag and attribute) references
+        # several distinct members: the purge has to take all of them out of that one relation
+        groups = collections.defaultdict(list)
+        holder_of = {}
+        for p, tree in sem_trees_plan:
+            if p.parts[0] != "\0":
+                continue
+            for e in tree.root.iter():
+                if not isinstance(e.tag, str):
+                    continue
+                for k, v in e.attrib.items():
+                    if k in SKIP_ATTRS:
+                        continue
+                    toks = ref_tokens(v)
+                    if len(toks) >= 2:
+                        groups[(id(e), k)] += toks
+                        holder_of[(id(e), k)] = e
+                    elif len(toks) == 1 and e.getparent() is not None and not e.get("name"):
+                        key = (id(e.getparent()), e.tag, k)
+                        groups[key] += toks
+                        holder_of[key] = e.getparent()
+        cnt = collections.Counter()
+        for key, toks in groups.items():
+            if len(set(toks)) < 2:
+                continue
+            hold_anc = {id(x) for x in [holder_of[key], *holder_of[key].iterancestors()]}
+            for tk in set(toks):
+                el = byid.get(tk)
+                while el is not None and el.get("id") in byid:
+                    if id(el) in hold_anc:
+                        break
+                    cnt[(key, el.get("id"))] += 1
+                    el = el.getparent()
+        multi = sorted({anc for (key, anc), c in cnt.items() if c >= 2}, key=lambda u: (sum(1 for _ in byid[u].iter()), u))[:200]
+        stats["pool-multi-referenced-subtrees"] = len(multi)
         plan = []
-        share = max(1, n_targets // (5 * len(specs)))
-        for pool in (leaves, roots, popular, plends, plparents):
+        share = max(1, n_targets // (6 * len(specs)))
+        for pool in (leaves, roots, popular, plends, plparents, multi):
             rng.shuffle(pool)
             plan += pool[:share]
         rng.shuffle(plan)
         del plan_model
+        base_broken = None
         for tid in plan:
+            if base_broken is None:
+                base_broken = broken_tokens(corpus.load(spec0)._loader)
             if model is None or done % per_model_reload == 0:
                 model = corpus.load(spec0)
                 A = graph.Abstraction()
@@ -127,6 +179,14 @@ def run(chk: lib.Check):
                         r.step()
             done += 1
             loader = model._loader
+            # a state in which some reference no longer resolves (left by an earlier step: e.g. a reference to a link element that a
+            # purge removed) is outside what the property speaks about — relations of such holders raise and the reference search
+            # cannot see them; start again from a fresh load
+            if broken_tokens(loader) - base_broken:
+                stats["reloaded: earlier steps left unresolvable references"] += 1
+                model = corpus.load(spec0)
+                A = graph.Abstraction()
+                loader = model._loader
             try:
                 obj = model.by_uuid(tid)
             except KeyError:
@@ -138,7 +198,31 @@ def run(chk: lib.Check):
             par, relname, lst, idx = cont
             del_acc = getattr(type(par), relname)
             tel = obj._element
-            T = [e for e in tel.iter() if isinstance(e.tag, str)]
+            # ---- the entry point decides how many objects go at once
+            entry = rng.choice(["delitem", "delitem", "remove", "delete_all", "delattr", "delslice", "delslice", "decl", "decl"])
+            members = list(lst._elements)
+            lo = hi = None
+            if entry == "delslice":
+                lo = max(0, idx - rng.randint(0, 2))
+                hi = min(len(members), idx + 1 + rng.randint(0, 2))
+                roots_el = members[lo:hi]
+            elif entry == "delattr":
+                if len(members) > 8:
+                    entry = "delitem"
+                    roots_el = [tel]
+                else:
+                    roots_el = members
+            elif entry == "decl":
+                pick = [idx] + rng.sample([i for i in range(len(members)) if i != idx], min(len(members) - 1, rng.choice([1, 1, 2])))
+                if rng.random() < 0.7:
+                    pick.sort()
+                roots_el = [members[i] for i in pick]
+                if any(not r.get("id") for r in roots_el):
+                    entry = "delitem"
+                    roots_el = [tel]
+            else:
+                roots_el = [tel]
+            T = [e for r_ in roots_el for e in r_.iter() if isinstance(e.tag, str)]
             Tset = {id(e) for e in T}
             tids = {e.get("id") for e in T if e.get("id")}
             # ---- exposure of references, from the implementation's own reference search (C10 checks that search)
@@ -189,8 +273,7 @@ def run(chk: lib.Check):
                 eid = attrib.get("id")
                 els.append([h, ph, [A.S(eid)] if eid else [], refs, None if lk is None else A.S(lk)])
             # ---- the deletion, through one of the entry points
-            entry = rng.choice(["delitem", "delitem", "remove", "delete_all", "delattr"])
-            desc = f"{type(obj).__name__}({tid}) via {entry} on {type(par).__name__}.{relname}"
+            desc = f"{type(obj).__name__}({tid}) via {entry} on {type(par).__name__}.{relname}" + (f" ({len(roots_el)} objects at once)" if len(roots_el) > 1 else "")
             outcome = "ok"
             try:
                 if entry == "delitem":
@@ -199,18 +282,28 @@ def run(chk: lib.Check):
                     lst.remove(obj)
                 elif entry == "delete_all":
                     lst.delete_all(uuid=tid)
+                elif entry == "delslice":
+                    del lst[lo:hi]
+                elif entry == "decl":
+                    from capellambse import decl
+                    yml = f"- parent: !uuid {par.uuid}\n  delete:\n    {relname}:\n" + "".join(f"      - !uuid {r_.get('id')}\n" for r_ in roots_el)
+                    decl.apply(model, io.StringIO(yml))
                 else:
-                    if len(lst) == 1:
-                        delattr(par, relname)
-                    else:
-                        del lst[idx]
+                    delattr(par, relname)
             except Exception as ex:  # noqa: BLE001
                 outcome = type(ex).__name__
             stats[f"{entry}:{outcome}"] += 1
             chk.note_case((spec0["name"], tid, entry), nontrivial=bool(watched) or len(T) > 1)
             after = snapshot(loader, A)
             if outcome != "ok":
-                if after != before:
+                gone_roots = [A.H(r_) not in after for r_ in roots_el]
+                if after != before and len(roots_el) > 1 and entry in ("delslice", "decl") and any(gone_roots) and not all(gone_roots) \
+                        and gone_roots == sorted(gone_roots, reverse=True):
+                    # the objects are deleted one after the other: those before the refusing one are gone
+                    chk.violation(f"partial-multi-delete:{entry}", f"deleting {desc} raised {outcome} after {sum(gone_roots)} of the {len(roots_el)} objects had been deleted",
+                                  {"model": spec0["name"], "target": tid, "entry": entry, "error": outcome, "objects": [r_.get("id") for r_ in roots_el]})
+                    model = None
+                elif after != before:
                     ch = [h for h in set(before) | set(after) if before.get(h) != after.get(h)]
                     chk.violation(f"refused-but-changed:{outcome}", f"deleting {desc} raised {outcome} but {len(ch)} elements changed",
                                   {"model": spec0["name"], "target": tid, "entry": entry, "error": outcome})
@@ -237,7 +330,7 @@ def run(chk: lib.Check):
                 exp_refs.append([h, rr])
             if len(cases) < (25 if quick else 200):
                 order = {h: i for i, h in enumerate(before)}
-                cases.append(([els, A.H(tel), sorted(watched)], [sorted(removed, key=order.get), sorted(exp_refs, key=lambda x: order[x[0]])]))
+                cases.append(([els, [A.H(r_) for r_ in roots_el], sorted(watched)], [sorted(removed, key=order.get), sorted(exp_refs, key=lambda x: order[x[0]])]))
                 descs.append(desc)
             # ---- oracle (independent of capellambse's reference machinery)
             for u in tids:
@@ -246,6 +339,17 @@ def run(chk: lib.Check):
                     chk.violation("deleted-still-found", f"after deleting {desc}, lookup of {u} still succeeds", {"model": spec0["name"], "target": tid, "uuid": u})
                 except KeyError:
                     pass
+            # every reference the reference search had reported before the deletion is gone now
+            for (h, k) in sorted(exposed_attr):
+                if h in after:
+                    left = [tk for tk in ref_tokens(after[h][2].get(k, "")) if tk in tids]
+                    if left:
+                        chk.violation(f"dangling-exposed:{after[h][1]}:{k}", f"after deleting {desc}, <{after[h][1]} {k}=...> of {after[h][2].get('id')} still references deleted id {left[0]}",
+                                      {"model": spec0["name"], "target": tid, "entry": entry, "element": after[h][2].get("id"), "attr": k, "left": left})
+            for h, u in sorted(link_elems.items()):
+                if h in after:
+                    chk.violation(f"dangling-link-element:{after[h][1]}", f"after deleting {desc}, the link element <{after[h][1]}> {after[h][2].get('id')} that refers to deleted id {u} is still there",
+                                  {"model": spec0["name"], "target": tid, "entry": entry, "element": after[h][2].get("id"), "refers_to": u})
             # raw scan for dangling tokens
             api_attrs = collections.defaultdict(set)
             for h, (ph, tag, attrib, _t) in after.items():
@@ -272,13 +376,14 @@ def run(chk: lib.Check):
                             po = _obj.ModelElement.from_model(model, e.getparent())
                             for an in dir(type(po)):
                                 a = getattr(type(po), an, None)
-                                if isinstance(a, D.LinkAccessor) and a.tag == tag and a.follow == k and A.xtype_of(e) in a.xtypes:
+                                if isinstance(a, D.LinkAccessor) and (a.tag is None or a.tag == tag) and a.follow == k and A.xtype_of(e) in a.xtypes:
                                     reach = True
                         except Exception:  # noqa: BLE001
                             pass
                     if reach:
                         chk.violation(f"dangling-exposed:{tag}:{k}", f"after deleting {desc}, <{tag} {k}=...> still references deleted id {hit[0]}",
-                                      {"model": spec0["name"], "target": tid, "entry": entry, "element": attrib.get("id"), "attr": k})
+                                      {"model": spec0["name"], "target": tid, "entry": entry, "element": attrib.get("id"), "attr": k,
+                                       "before": before.get(h, (0, 0, {}))[2].get(k), "after": v, "exposure_known": (h, k) in exposed_attr})
                     else:
                         stats["dangling-raw(not exposed by an accessor)"] += 1
             # holders' relations still evaluate and yield nothing deleted
@@ -314,7 +419,7 @@ def run(chk: lib.Check):
                         return True
                     h = snap.get(h, (None,))[0]
                 return False
-            troot = {A.H(tel)}
+            troot = {A.H(r_) for r_ in roots_el}
             for h in set(before) | set(after):
                 b, a = before.get(h), after.get(h)
                 if b == a:
@@ -345,7 +450,8 @@ def run(chk: lib.Check):
                    describe=lambda i: descs[i])
     chk.coverage.update({"outcomes": dict(sorted(stats.items())),
                          "rule": "targets stratified over leaves, subtree roots, the most referenced ids and ids referenced from PhysicalLink ends (refusal), in freshly "
-                                 "loaded models and in states reached by random edits, through del list[i] (positive/negative index) / remove / delete_all / del obj.attr; "
+                                 "loaded models and in states reached by random edits, through del list[i] (positive/negative index) / remove / delete_all / del obj.attr / del list[a:b] (several objects) / a declarative delete: with several "
+                                 "entries; a sixth target pool holds subtrees of which one holder's relation references several members; "
                                  "after each deletion: lookups of all deleted ids, a raw token scan of every remaining attribute, every relation of the former holders, "
                                  "and an element-by-element diff of the whole model; the model's predicted removed set and remaining references are compared in Coq"})
     chk.samples.append(descs[:5])
